@@ -26,6 +26,7 @@ func runC14(c *core.Ctx) {
 	c.RuleDoc("R14.6", "in a move, the delete of the old name is conditional on the store of the new one")
 	c.RuleDoc("R14.5", "per-path result slices keep the input's length on the failure path")
 	c.RuleDoc("R14.7", "the error of a run-once (sync.Once) evaluation is memoised in a field, not in a local")
+	c.RuleDoc("R14.12", "every transaction begun in package keyvalue is committed or aborted on every path, failing ones included (= R18.6)")
 	c.RuleDoc("R14.11", "a failure of a whole multi-path look-up is reported for every path")
 	c.RuleDoc("R14.10", "a memoised (value, error) pair is handed out together")
 	c.RuleDoc("R14.9", "a function handed a non-nil error returns one, except on the ErrNotExist/ErrExist look-up edges")
@@ -45,6 +46,11 @@ func runC14(c *core.Ctx) {
 			r14ErrBeforeNotExist(c, p)
 			r14ErrorParams(c, p)
 			r14FailureForEveryPath(c, p)
+			// R14.12 (= R18.6): a store failure between Transaction() and Commit/Abort must still end the transaction — a leaked
+			// transaction of the in-memory store keeps its mutex, and the NEXT operation on the file system hangs
+			if txnI := ifaceOf(p, "keyvalue", "Transaction"); txnI != nil {
+				c.WithAlias(map[string]string{"R18.6": "R14.12"}, func() { r18Pairing(c, p, txnI) })
+			}
 		}
 	}
 	c.Floor("R14.1", 4)
@@ -58,6 +64,7 @@ func runC14(c *core.Ctx) {
 	c.Floor("R14.9", 3)
 	c.Floor("R14.10", 1)
 	c.Floor("R14.11", 2)
+	c.Floor("R14.12", 4)
 }
 
 func pkgFuncs(p *load.Program, rel string) []*ssa.Function {
